@@ -423,7 +423,19 @@ func (p c05) Run(c *core.Ctx, idx int) {
 	if t.base == "identityref" {
 		idents = "  identity base-id;\n  identity id-a { base base-id; }\n  identity id-b { base base-id; }\n  identity id-c;\n"
 	}
-	yang := fmt.Sprintf("module m {\n  namespace \"urn:m\";\n  prefix m;\n  revision 2020-01-01;\n%s%s  container c {\n    %s x { %s }\n    leaf other { type string; }\n  }\n}\n", idents, tds, kw, leafType)
+	// decoy leaves: the same pattern / range texts with the opposite modifier or other bounds elsewhere in the
+	// module must not influence x (statements are independent objects)
+	decoy := ""
+	for i, l := range t.levels {
+		for j, pt := range l.pats {
+			if pt.invert {
+				decoy += fmt.Sprintf("    leaf decoy%d%d { type string { pattern '%s'; } }\n", i, j, pt.re)
+			} else {
+				decoy += fmt.Sprintf("    leaf decoy%d%d { type string { pattern '%s' { modifier invert-match; } } }\n", i, j, pt.re)
+			}
+		}
+	}
+	yang := fmt.Sprintf("module m {\n  namespace \"urn:m\";\n  prefix m;\n  revision 2020-01-01;\n%s%s  container c {\n    %s x { %s }\n    leaf other { type string; }\n%s  }\n}\n", idents, tds, kw, leafType, decoy)
 	var mod *meta.Module
 	var err error
 	if c.Guard("load", func() { mod, err = parser.LoadModuleFromString(nil, yang) }) {
@@ -440,6 +452,11 @@ func (p c05) Run(c *core.Ctx, idx int) {
 		xs.Kind = dp.LeafList
 	}
 	cs := &dp.SNode{Kind: dp.Container, Name: "c", Children: []*dp.SNode{xs, {Kind: dp.Leaf, Name: "other", Type: &dp.SType{Base: "string"}}}}
+	for i, l := range t.levels {
+		for j := range l.pats {
+			cs.Children = append(cs.Children, &dp.SNode{Kind: dp.Leaf, Name: fmt.Sprintf("decoy%d%d", i, j), Type: &dp.SType{Base: "string"}})
+		}
+	}
 	s := &dp.Schema{Name: "m", Prefix: "m", NS: "urn:m", Top: []*dp.SNode{cs}}
 	if err := s.BindTo(mod); err != nil {
 		c.R.Inconclusive = "bind: " + err.Error()
